@@ -139,3 +139,24 @@ package v0
 //@     | ==> !shas(mem.txsMap, keyOf(old(txOf(mem.recheckCursor))))
 //@   loop 1 invariant cur: mem.recheckCursor != nil && mem.recheckCursor.owner == mem.txs && memTx == cast(*mempoolTx, payload(mem.recheckCursor.Value))
 //@   loop 1 invariant same: mem.recheckCursor == old(mem.recheckCursor) || cast(*abci.Request_CheckTx, payload(req.Value)).CheckTx.Tx != old(txOf(mem.recheckCursor))
+
+// ---- C05: while consensus holds the mempool lock (from before Commit until after Update) no new check can start ----
+//@ import proxy github.com/tendermint/tendermint/proxy
+//@ extern proxy.AppConnMempool.CheckTxAsync
+//@   assigns nothing
+//@ extern proxy.AppConnMempool.Error
+//@   assigns nothing
+//@ extern proxy.AppConnMempool.FlushSync
+//@   assigns nothing
+// The consensus side's Lock is the write side of the very mutex a check holds for reading from before its first test
+// until after the request has been handed to the application connection.
+//@ func CListMempool.Lock
+//@   ensures excl: holds(mem.updateMtx)
+//@ func CListMempool.Unlock
+//@   requires excl: holds(mem.updateMtx)
+//@   ensures free: unlocked(mem.updateMtx)
+//@ func CListMempool.CheckTx
+//@   requires free: unlocked(mem.updateMtx)
+//@   requires wf: wfPool(mem) && withinLimits(mem)
+//@   ensures free: unlocked(mem.updateMtx)
+//@   atcall AppConnMempool.CheckTxAsync guarded: rholds(mem.updateMtx)
